@@ -438,6 +438,9 @@ pub fn sweep(rep: &mut Report, judge: Judge) {
         (Cfg::new(Algo::Buz, 16, 1024 * 1024 + 512, 2 * 1024 * 1024, 20), Comp::Zstd(1), 2 * 1024 * 1024 + 4097),
         (Cfg::new(Algo::Roll, 64, 16 * 1024, 16 * 1024 * 1024, 15), Comp::None, 1024 * 1024),
         (Cfg::new(Algo::Roll, 64, 16 * 1024, 16 * 1024 * 1024, 15), Comp::None, 1024 * 1024 + 1),
+        // chunks beyond 2 MiB: more than tokio::fs::File accepts in one write call
+        (Cfg::fixed(3 * 1024 * 1024), Comp::None, 7 * 1024 * 1024 + 11),
+        (Cfg::new(Algo::Roll, 64, 2 * 1024 * 1024 + 4096, 5 * 1024 * 1024, 21), Comp::Brotli(1), 6 * 1024 * 1024),
     ];
     let big_ref = &big;
     let b = par_shards(big.len(), threads(), |i| {
@@ -458,8 +461,12 @@ pub fn sweep(rep: &mut Report, judge: Judge) {
         agg.add("library_roundtrips", 1);
         agg.add("large_source_roundtrips", 2);
         lib_roundtrip(&rt, &case, &mut agg, judge);
-        agg.add("cli_roundtrips", 1);
-        cli_roundtrip(&rt, dir.path(), &case, &mut agg, judge);
+        if cli_expressible(&case.cfg) {
+            agg.add("cli_roundtrips", 1);
+            cli_roundtrip(&rt, dir.path(), &case, &mut agg, judge);
+        } else {
+            machinery(format!("large-source case {} is not expressible on the command line", case.cfg.label()));
+        }
         agg
     });
     rep.agg.merge(b);
